@@ -156,6 +156,8 @@ func worker(results chan<- result, files <-chan string, wg *sync.WaitGroup) {
 		f, err := os.Open(file)
 		if err != nil {
 			res.err = err
+			results <- res
+			continue
 		}
 		info, _ := f.Stat() //nolint: errcheck // The file is already open here so we can ignore the error
 		// Skip directories
